@@ -82,6 +82,28 @@ func NewYAMLAccountManager(accountDir string) (*YAMLAccountManager, error) {
 	return &accountMgr, nil
 }
 
+// writeTempFile writes data to a new temporary file in dir and returns its path.  The name is not derived from the
+// account login: "<login>.yaml.tmp" is too long a file name for logins whose "<login>.yaml" is still legal, and such
+// accounts could then be neither created nor updated.
+func writeTempFile(dir string, data []byte) (string, error) {
+	f, err := os.CreateTemp(dir, ".account-*.tmp")
+	if err != nil {
+		return "", err
+	}
+	_, err = f.Write(data)
+	if err == nil {
+		err = f.Chmod(0644)
+	}
+	if cerr := f.Close(); err == nil {
+		err = cerr
+	}
+	if err != nil {
+		_ = os.Remove(f.Name())
+		return "", err
+	}
+	return f.Name(), nil
+}
+
 func (am *YAMLAccountManager) Create(account hotline.Account) error {
 	am.mu.Lock()
 	defer am.mu.Unlock()
@@ -94,9 +116,8 @@ func (am *YAMLAccountManager) Create(account hotline.Account) error {
 	// Write the complete account to a temporary file first and then link it to its final name: the link fails if an
 	// account file with that name already exists, and a crash never leaves an empty or half-written account file.
 	accountPath := filepath.Join(am.accountDir, path.Join("/", account.Login+".yaml"))
-	tempPath := accountPath + ".tmp"
-
-	if err := os.WriteFile(tempPath, b, 0644); err != nil {
+	tempPath, err := writeTempFile(am.accountDir, b)
+	if err != nil {
 		return fmt.Errorf("write account file: %w", err)
 	}
 	defer os.Remove(tempPath)
@@ -133,11 +154,12 @@ func (am *YAMLAccountManager) Update(account hotline.Account, newLogin string) e
 	// Replace the existing account file atomically (temporary file + rename) so that a crash leaves either the old
 	// or the new account, never a truncated file.  For a changed login the file already carries the new login when
 	// it is finally renamed to its new name.
-	tempPath := oldPath + ".tmp"
-	if err := os.WriteFile(tempPath, out, 0644); err != nil {
+	tempPath, err := writeTempFile(am.accountDir, out)
+	if err != nil {
 		return fmt.Errorf("error writing account file: %w", err)
 	}
 	if err := os.Rename(tempPath, oldPath); err != nil {
+		_ = os.Remove(tempPath)
 		return fmt.Errorf("error writing account file: %w", err)
 	}
 
